@@ -277,11 +277,17 @@ class CachedStore(Entity):
         """
         flushed = 0
         for key in list(self._dirty_keys):
-            if key in self._cache:
-                yield from self._backing_store.put(key, self._cache[key])
-                self._dirty_keys.discard(key)
-                self._writebacks += 1
-                flushed += 1
+            if key in self._dirty_keys and key in self._cache:
+                # Pay the write latency first and store whatever is cached
+                # when the write lands: a put, delete or invalidation that
+                # arrives while the write is in flight must not be undone by
+                # (or hidden behind) the older value.
+                yield self._backing_store.write_latency
+                if key in self._dirty_keys and key in self._cache:
+                    self._backing_store.put_sync(key, self._cache[key])
+                    self._dirty_keys.discard(key)
+                    self._writebacks += 1
+                    flushed += 1
         return flushed
 
     def _cache_put(self, key: str, value: Any) -> None:
